@@ -48,7 +48,45 @@ def run_script(ops, release=False, timeout=1500):
         return {'obs': out, 'exit': r.returncode, 'tail': (r.stdout[-1500:] + r.stderr[-1500:]) if r.returncode != 0 else ''}
 
 
+def run_scenario(name, timeout=1500):
+    """gRPC-level scenario (tests/verif_grpc.rs overlay)"""
+    with snapshot.Lock('replay.lock'):
+        src = snapshot.snapshot_src()
+        with open(os.path.join(HERE, 'replay', 'verif_grpc.rs')) as f:
+            code = f.read()
+        dst = os.path.join(src, 'tests', 'verif_grpc.rs')
+        with open(dst, 'w') as f:
+            f.write(code)
+        env = dict(os.environ)
+        env['CARGO_TARGET_DIR'] = os.path.join(snapshot.CACHE, 'target-test')
+        env['CARGO_NET_OFFLINE'] = 'true'
+        env['VERIF_SCENARIO'] = name
+        try:
+            r = subprocess.run(['cargo', 'test', '--offline', '--test', 'verif_grpc', '--', '--nocapture', '--test-threads', '1'],
+                               cwd=src, env=env, capture_output=True, text=True, timeout=timeout)
+        finally:
+            try:
+                os.unlink(dst)
+            except OSError:
+                pass
+        out = []
+        for line in r.stdout.split('\n'):
+            m = re.search(r'VERIF-OBS (.*)$', line)
+            if m:
+                out.append(json.loads(m.group(1)))
+        return {'obs': out, 'exit': r.returncode, 'tail': (r.stdout[-1500:] + r.stderr[-1500:]) if r.returncode != 0 else ''}
+
+
 def run(request, cfg):
+    if 'scenario' in request:
+        import judges
+        rr = run_scenario(request['scenario'])
+        verdict, detail = judges.JUDGES[request['judge']](request, rr)
+        return {'reproduced': verdict, 'detail': detail, 'request': request, 'obs': rr['obs'][-12:], 'profile': 'dev'}
+    return run_ops(request, cfg)
+
+
+def run_ops(request, cfg):
     """request: {'ops': [...], 'judge': name, ...}; returns {'reproduced': bool, 'detail': str, 'request': request, 'obs': [...]}"""
     import judges
     rr = run_script(request['ops'], release=False)
